@@ -10,7 +10,7 @@ sys.path.insert(0, os.environ.get("VERIF_REPO", "/repo"))
 sys.path.insert(0, os.path.dirname(os.path.abspath(__file__)))
 
 
-class _Timeout(Exception):
+class _Timeout(BaseException):
     pass
 
 
